@@ -271,3 +271,28 @@ Section KEYS.
       end
     end.
 End KEYS.
+
+(* ------------------------------------------------------------------ *)
+(* A concrete stand-in for the AEAD, used only to RUN the model (Run_C31.v,
+   the refutation witnesses and the examples): the sealed form is the
+   plaintext followed by `oh` tag bytes: eight taken from a sum over key and
+   plaintext, the others from the low bytes of the nonce.
+   No theorem depends on it. *)
+Definition toy_mix (k p : bytes) : N :=
+  fold_left (fun acc b => acc + b + 8) p (fold_left (fun acc b => acc + 3 * b + 1) k 23130).
+Definition toy_tag (oh : nat) (k n p : bytes) : bytes :=
+  let h := toy_mix k p in
+  let rn := rev n in
+  map (fun i => if (i <? 8)%nat then (h / 2 ^ N.of_nat i) mod 256
+                else N.lxor (nth (i - 8) rn 0) 165) (seq 0 oh).
+Definition toy_seal (oh : nat) (k n p : bytes) : bytes := p ++ toy_tag oh k n p.
+Definition toy_open (oh : nat) (k n c : bytes) : option bytes :=
+  let p := firstn (length c - oh) c in
+  if (oh <=? length c)%nat && bytes_eqb c (toy_seal oh k n p) then Some p else None.
+
+(* an AEAD given by the table of ciphertexts that exist (nonce, plaintext, sealed) *)
+Definition tbl_open (tbl : list (bytes * bytes * bytes)) (k n c : bytes) : option bytes :=
+  match find (fun t => bytes_eqb n (fst (fst t)) && bytes_eqb c (snd t)) tbl with
+  | Some t => Some (snd (fst t))
+  | None => None
+  end.
